@@ -139,7 +139,7 @@ class Gen:
         q = self.quick; sp = self.sp; rng = self.rng; cat = self.catalog
         lines = []
         cap = 3000 if q else 60000
-        tmpl = sorted({w['name'] for w in self.t['wrappers'] if w['kind'] == 'inst'}) if self.cpp else sorted(self.t['scalar_functions'])
+        tmpl = sorted(self.t['generic']) if self.cpp else sorted(self.t['scalar_functions'])
         for fn in tmpl:
             if fn in self.protos and xapi.is_simple(self.protos[fn]): lines += self.scalar_lines(fn, cap)
         # hand-written wrappers
@@ -233,6 +233,12 @@ class Gen:
             out.append((names, forms, ops))
         return out
 
+def parse_hist(line):
+    t = line.split(' ')
+    n = int(t[1]); names = [xapi.unesc(x[1:]) for x in t[2:2 + n]]
+    m = int(t[2 + n]); forms = [xapi.unesc(x[1:]) for x in t[3 + n:3 + n + m]]
+    return names, forms, [(x[0], int(x[1:])) for x in t[3 + n + m:]]
+
 def hist_lines(names, forms, ops):
     cpp = 'Hist %d %s %d %s %s' % (len(names), ' '.join(xapi.sarg(n) for n in names), len(forms), ' '.join(xapi.sarg(f) for f in forms), ' '.join('%s%d' % o for o in ops))
     mod = 'hist ' + ' '.join('%s%d' % (o, (x + 100) if o == 'p' else x) for o, x in ops)
@@ -301,6 +307,7 @@ class C18:
         for w in NONVACUITY:
             if w not in src: rep['problems'].append('non-vacuity witness `%s` missing from %s' % (w, MODULE))
         tables = json.load(open(os.path.join(aux, 'cpp_tables.json')))
+        if not ok_props and 'wrapper_table_complete' in rep['proof_broken']: rep['table_diagnosis'] = diagnose_table(tables)[:20]
         t = time.time()
         def b1(): return xdrv.build_c_driver(sc, ctx.objs, ctx.cfl, aux)
         with ThreadPoolExecutor(max_workers=2) as ex:
@@ -398,6 +405,12 @@ class C18:
             if not rl:
                 log('replay file names no call; running the whole check'); replay = None
             else:
+                hl = [l for l in rl if l.startswith('Hist ')]; rl = [l for l in rl if not l.startswith('Hist ')]
+                if hl:
+                    g = Gen(ctx, b['tables'], b['cdrv'])
+                    self.histories(ctx, b, g, rep, viols, dist, [parse_hist(l) for l in hl])
+                    n_eval += len(hl)
+                    print('%d ownership histories replayed, %d disagree with the model' % (len(hl), len(viols)))
                 c, w, m = self.three_way(b, rl, None)
                 for i, (l, ca, wa, ma) in enumerate(zip(rl, c, w, m)):
                     print('%s\n   C   : %s\n   C++ : %s\n   model: %s' % (l, ca[:300], wa[:300], ma))
@@ -435,26 +448,25 @@ class C18:
         ctx.skipped = skipped
         return self.report(ctx, b, rep, viols, leaks, lsan, dist, samples, n_eval, len(nontriv), replay)
 
-    def histories(self, ctx, b, g, rep, viols, dist):
-        cat = g.catalog
-        hs = g.histories()
-        if not hs: return
-        # observation tables from the C reference
+    def hist_obs(self, b, cat):
+        """what a method call / member read must show for each catalogue entry, from the C reference"""
         q = ['Crystal_UnitCellVolume %s E' % xapi.sarg(n) for n in cat['crystals']] + ['Crystal_GetCrystal %s E' % xapi.sarg(n) for n in cat['crystals']] + \
             ['CompoundParser %s E' % xapi.sarg(f) for f in xapi.FORMULAS_OK]
         a = xdrv.run_driver([b['cdrv']], q, chunk=None)
         nC = len(cat['crystals'])
-        ucv = {n: xdrv.parse_c(a[i])['vals'][0] for i, n in enumerate(cat['crystals'])}
-        vol = {n: xdrv.parse_c(a[nC + i])['vals'][7] for i, n in enumerate(cat['crystals'])}
-        mm = {f: xdrv.parse_c(a[2 * nC + i])['vals'][-1] for i, f in enumerate(xapi.FORMULAS_OK)}
+        return dict(ucv={n: xdrv.parse_c(a[i])['vals'][0] for i, n in enumerate(cat['crystals'])},
+                    vol={n: xdrv.parse_c(a[nC + i])['vals'][7] for i, n in enumerate(cat['crystals'])},
+                    mm={f: xdrv.parse_c(a[2 * nC + i])['vals'][-1] for i, f in enumerate(xapi.FORMULAS_OK)})
+
+    def hist_run(self, b, obs, items):
+        """real wrapper objects vs Hand/Struct.lean on histories -> [(cpp line, cpp answer, model answer, complaint or None)]"""
         cl = []; ml = []
-        for names, forms, ops in hs:
+        for names, forms, ops in items:
             x, y = hist_lines(names, forms, ops); cl.append(x); ml.append(y)
         w = xdrv.run_driver([b['cppdrv']], cl, chunk=None)
         mo = self.run_model(b, ml)
-        d = dist.setdefault('Hist', dict(calls=0, ok=0, err={}, died=0, msgs=set()))
-        for (names, forms, ops), line, wa, ma in zip(hs, cl, w, mo):
-            d['calls'] += 1
+        out = []
+        for (names, forms, ops), line, wa, ma in zip(items, cl, w, mo):
             bad = None
             mt = ma.split(' '); wt = wa.split(' ')
             if mt[0] != 'ok': bad = 'model faults on a history: ' + ma       # cannot happen (struct_no_fault); reported as broken tie
@@ -472,11 +484,36 @@ class C18:
                         if me[0] != we: bad = 'op %s%d: model %s, objects %s' % (o, x, me, we); break
                         if me[0] == 'v':
                             cid = int(me[1:])
-                            exp = mm[forms[cid - 100]] if cid >= 100 else (ucv[names[cid]] if o == 'k' else vol[names[cid]])
+                            exp = obs['mm'][forms[cid - 100]] if cid >= 100 else (obs['ucv'][names[cid]] if o == 'k' else obs['vol'][names[cid]])
                             if wb != exp: bad = 'op %s%d: object answered from other contents than those it was built from (%s, expected %s)' % (o, x, wb, exp); break
                     if not bad and wL != 3 * mL: bad = 'live C blocks %d, model says %d objects x 3 blocks' % (wL, mL)
                     if not bad and wZ != 0: bad = '%d blocks live after every wrapper object was destroyed' % wZ
+            out.append((line, wa, ma, bad))
+        return out
+
+    def hist_shrink(self, b, obs, item):
+        names, forms, ops = item
+        ops = list(ops)
+        def fails(o): return self.hist_run(b, obs, [(names, forms, o)])[0][3] is not None
+        i = len(ops) - 1
+        while i >= 0 and len(ops) > 1:
+            cand = ops[:i] + ops[i + 1:]
+            if fails(cand): ops = cand
+            i -= 1
+        return (names, forms, ops)
+
+    def histories(self, ctx, b, g, rep, viols, dist, items=None):
+        items = items if items is not None else g.histories()
+        if not items: return
+        obs = self.hist_obs(b, g.catalog)
+        d = dist.setdefault('Hist', dict(calls=0, ok=0, err={}, died=0, msgs=set()))
+        first = True
+        for item, (line, wa, ma, bad) in zip(items, self.hist_run(b, obs, items)):
+            d['calls'] += 1
             if bad:
+                if first:
+                    first = False
+                    line = hist_lines(*self.hist_shrink(b, obs, item))[0]
                 viols.append(dict(key=line, got=wa[:400], expected=ma[:400], what='ownership history: ' + bad, leak_only=False))
             else:
                 d['ok'] += 1
@@ -534,13 +571,15 @@ class C18:
                 key = self.shrink(b, v) if k <= 3 else v['key']
                 body += '# %s\n# C        : %s\n# C++      : %s\n# expected : %s\n%s\n' % (v['what'], v.get('c', ''), v['got'], v.get('expected'), key)
             body += '# %d failing lines in total\n' % len(viols)
+            for d in rep.get('table_diagnosis', []): body += '# wrapper table: %s\n' % d
             if broken: body += '# broken obligations: %s\n' % json.dumps(dict(proof=rep['proof_broken'], tie=rep['tie_broken'], other=rep['problems']))[:3000]
             path = core.write_replay(ctx, body)
             print('VIOLATION property=C18 replay=%s' % path)
             exit_code = 1
         elif broken:
             body = '# C18 is no longer shown to hold; the three-way run (%d calls) exhibited no call on which wrapper and C function differ\n' % n_eval
-            if rep['proof_broken']: body += '# theorems that no longer check: %s\n# %s\n' % (', '.join(rep['proof_broken']), rep.get('proof_log', '').replace('\n', '\n# '))
+            if rep['proof_broken']: body += '# theorems that no longer check: %s\n# %s\n' % (', '.join(rep['proof_broken']), rep.get('proof_log', '').replace('\n', '\n# ')[:1500])
+            for d in rep.get('table_diagnosis', []): body += '# wrapper table: %s\n' % d
             for tb in rep['tie_broken']: body += '# correspondence / extraction broken: %s\n' % tb
             for pb in rep['problems']: body += '# %s\n' % pb
             path = core.write_replay(ctx, body)
@@ -574,6 +613,34 @@ class C18:
         log('C18 %s: exit %d (%.1fs; theorems %d/%d; %d calls three-way, %d model mispredictions, %d violations, %d known-finding calls)' % (
             ctx.tier, exit_code, time.time() - ctx.t0, n_dis, len(ths), n_eval, len(rep['tie_broken']), len(viols), len(leaks) if rep['known'] else 0))
         return exit_code
+
+NOT_WRAPPED_BY_DESIGN = {'Crystal_ArrayInit', 'Crystal_ReadFile', 'xrl_propagate_error', 'xrl_clear_error'}    # = Spec.notWrappedByDesign
+
+def diagnose_table(t):
+    """entry-level report for a failed `wrapper_table_complete` (the kernel only says that the table check is false):
+    the same conditions as lean-cpp/XrlCpp/Spec/Table.lean, evaluated here to *name* the offending entries"""
+    out = []
+    protos = {p['name']: p for p in t['protos']}
+    ws = t['wrappers']
+    callable_ = {w['callee'] for w in ws if w['kind'] not in ('pattern', 'delegate', 'dtor')}
+    for p in t['protos']:
+        if any(ty == 'errpp' for _, ty in p['params']) and p['name'] not in NOT_WRAPPED_BY_DESIGN and p['name'] not in callable_:
+            out.append('public C function %s (%s:%s) has no callable wrapper' % (p['name'], p['header'], p['line']))
+    for w in ws:
+        if w['kind'] in ('pattern', 'delegate', 'dtor') or w['callee'] in ('', 'xrl_malloc'): continue
+        p = protos.get(w['callee'])
+        where = 'xrlpp::%s (xraylib++.h:%s)' % (w['name'], w.get('line'))
+        if p is None: out.append('%s forwards to %s, which is not a public C function' % (where, w['callee'])); continue
+        if not (w['base'] == w['callee'] or 'Crystal_' + w['base'] == w['callee'] or (w['base'], w['callee']) == ('XrayInit', 'XRayInit') or (w['kind'] == 'ctor' and w['callee'] == 'Crystal_MakeCopy')):
+            out.append('%s forwards to the C function %s, not to the one of its own name' % (where, w['callee']))
+        fwd = [a[1] for a in w['args'] if a[0] in ('param', 'cstr', 'paramCs')]
+        if fwd != list(range(len(w['params']))):
+            out.append('%s forwards its parameters in the order %s to %s' % (where, fwd, w['callee']))
+        if len(w['args']) != len(p['params']): out.append('%s calls %s with %d arguments, the prototype has %d' % (where, w['callee'], len(w['args']), len(p['params'])))
+        if any(ty == 'errpp' for _, ty in p['params']) and not w['checked']: out.append('%s does not call _process_error(error) right after %s' % (where, w['callee']))
+    for w in ws:
+        if w['kind'] == 'pattern' and not w['checked']: out.append('_XRL_FUNCTION overload of %s does not call _process_error(error) right after the C call' % w['name'])
+    return out
 
 def failing_theorems(build_log):
     rel = os.path.relpath(PROPS_FILE, PROJECT)
